@@ -15,7 +15,8 @@ type publishQueue struct {
 }
 
 // enqueue returns the caller's position in the publish order.
-// It must be called while holding the resource's write lock, right after the write has been committed.
+// Writers call it while holding the resource's write lock, right after the write has been committed.
+// Subscribers call it while holding the read lock, right after capturing the current contents.
 func (q *publishQueue) enqueue() uint64 {
 	q.mu.Lock()
 	defer q.mu.Unlock()
